@@ -40,7 +40,7 @@ def validate(v, pid, runs, describe):
         for e in trace:
             f.write(json.dumps(e) + "\n")
     r = vlib.tlc("Trace_Unwind", "Trace_Unwind", env={"TRACE": path}, workers=1, deque=True, timeout=3000, heap="16g")
-    os.remove(path)
+    vlib.drop_trace(path, "unwind")
     if "NOT_CONSUMED" in r["out"] or r["distinct"] == 0 or any(e.startswith("Error:") for e in r["errors"]):
         raise vlib.ToolError("unwind trace validation did not complete:\n" + r["out"][-2500:])
     v.cov["states"] += r["distinct"]
